@@ -4,8 +4,9 @@
 spec/proc/Listener.tla   implementation-shaped model of proc/listener.go (Serve / handlers / Stop / Drain,
                          one action per code section between verifhook points; FixDone / FixPublish / FixStats
                          select the pinned or the repaired code)
-spec/proc/RedisStop.tla  composition: Redis processor stop order with a session and the slot refresher waiting
-                         for a responsive / silent / closed backend (FixSessionWait / FixRefreshWait)
+spec/proc/RedisStop.tla  composition: Redis processor stop order with a session (pipelined requests, bounded reply
+                         queue) and the slot refresher waiting for a responsive / silent / closed backend
+                         (FixSessionWait / FixRefreshWait / FixProcQuit)
 spec/proc/TcpStop.tla    composition: TCP processor stop with one relayed connection and its watcher (FixQuit)
 
  1. exhaustive TLC runs of the repaired designs (safety, liveness under fairness, action properties);
@@ -57,6 +58,14 @@ def listener_stats(ctx, n=40, workers=6, timeout=600):
 
 # --------------------------------------------------------------------------- TLC
 
+# processor scenarios that must have been executed (placement of Stop x backend behaviour); a run in which one
+# of them is missing or ended with an infrastructure error decides nothing about the composition windows
+REQUIRED_SCENARIOS = (["redis/%s/%s" % (w, b) for w in ("idle-conns", "request-waiting", "pipeline-waiting", "refresh-waiting")
+                       for b in ("responsive", "silent", "closed")]
+                      + ["tcp/idle-conns/%s" % b for b in ("responsive", "silent", "closed")]
+                      + ["%s/%s/responsive" % (p, w) for p in ("redis", "tcp")
+                         for w in ("immediately", "port-busy", "port-busy-immediately", "drain-then-stop")])
+
 LISTENER_WINDOWS = ["W_StopBeforeServe", "W_StopBeforeBind", "W_StopDuringRetry", "W_StopBetweenBindAndPublish",
                     "W_StopWithActiveConns", "W_StopWhileAccepting", "W_DrainBeforeBind", "W_DrainDuringRetry",
                     "W_DrainBetweenBindAndPublish", "W_DrainThenStop", "W_DrainWithActiveConns", "W_LimitReached",
@@ -84,6 +93,7 @@ def model_checking(ctx):
     jobs.append(("proc", "RedisStop", "MC_RedisStop_pinned_benign.cfg", None, True, False))
     jobs.append(("proc", "RedisStop", "MC_RedisStop_nosession.cfg", stuck, False, False))
     jobs.append(("proc", "RedisStop", "MC_RedisStop_norefresh.cfg", stuck, False, False))
+    jobs.append(("proc", "RedisStop", "MC_RedisStop_noprocquit.cfg", stuck, False, False))
     jobs.append(("proc", "TcpStop", "MC_TcpStop_fixed.cfg", None, True, True))
     jobs.append(("proc", "TcpStop", "MC_TcpStop_pinned_benign.cfg", None, True, False))
     jobs.append(("proc", "TcpStop", "MC_TcpStop_pinned.cfg", stuck, False, False))
@@ -370,7 +380,8 @@ def trace_validation(ctx, free_jobs, free_results):
 def run(ctx):
     ctx.build()
     ctx.assumptions += [
-        "bounded model: 2 (3) connections, limit 0/1 (2), one Stop, one Drain, port busy or free, at most 2 refresh rounds",
+        "bounded model: 2 (3) connections, limit 0/1 (2), one Stop, one Drain, port busy or free, at most 2 refresh rounds; "
+        "Redis composition: one session with 3 pipelined requests and a reply queue of capacity 1 (code: 32)",
         "reads of l.ln are atomic in the model (a stale read after publication is not modelled); no temporary accept errors",
         "Serve is called once per listener (Start always spawns it) and Stop is called after Start",
         "kernel behaviour on loopback trusted: closing a listening socket resets the connections queued on it (measured here: about 1 % of the "
@@ -458,6 +469,10 @@ def run_conformance(ctx, t0, mc_future):
     # a defect in the code is the usual reason why the code cannot be kept in step with the model.
     if ctx.violations or ctx.known_hits:
         return
+    ran = {r.get("name") for r in prc if not r.get("err")}
+    missing = [n for n in REQUIRED_SCENARIOS if n not in ran]
+    if missing:
+        raise kit.Inconclusive("mandatory processor scenarios not executed: %s" % missing)
     errs = sum(1 for r in results if r.get("err"))
     if errs > len(results) * 0.15:
         raise kit.Inconclusive("driver unhealthy: %d of %d jobs ended with an infrastructure error" % (errs, len(results)))
